@@ -354,9 +354,10 @@ def rule_teardown(ck, consts):
             stored = n.kind == "stmt" and isinstance(n.ast, ast.Assign) and WAIT in q.assigned_paths(n.ast)
             armed = armed + ((q.dotted(cb) if cb is not None else None, stored),)
         for c in X.calls_in_node(n, "self.stream.io_loop.remove_timeout"):
-            removed = removed or (len(c.args) == 1 and q.dotted(c.args[0]) == WAIT)
-        if X.calls_in_node(n, "self._ping_coroutine.cancel"):
-            cancelled = True
+            removed = removed or (len(c.args) == 1 and (q.dotted(c.args[0]) == WAIT or X.fold_in(c.args[0], env, None) == "TIMER-HANDLE"))
+        for c in X.node_calls_all(n):
+            if isinstance(c.func, ast.Attribute) and c.func.attr == "cancel" and (q.dotted(c.func.value) == "self._ping_coroutine" or X.fold_in(c.func.value, env, None) == "PINGER-TASK"):
+                cancelled = True
         if n.kind == "stmt" and isinstance(n.ast, ast.Assign) and WAIT in q.assigned_paths(n.ast) and isinstance(n.ast.value, ast.Constant) and n.ast.value.value is None:
             cleared = True
         return (closed, armed, removed, cancelled, cleared)
@@ -370,9 +371,13 @@ def rule_teardown(ck, consts):
     ]
     for label, asm in scen:
         for pinger in (True, False):
-            a = dict(asm)
-            a["self._ping_coroutine"] = pinger
-            seen = X.explore_consts(cl.cfg, consts, assume=a, uinit=init, utransfer=ut, follow_exc=True)
+            # the scenario is a concrete model of the three state fields (so that it also holds through local copies,
+            # e.g. the take-and-clear `waiting, self._waiting = self._waiting, None`)
+            cs = dict(consts)
+            cs["self.client_terminated"] = asm["self.client_terminated"]
+            cs[WAIT] = None if asm[WAIT + " is None"] else "TIMER-HANDLE"
+            cs["self._ping_coroutine"] = "PINGER-TASK" if pinger else None
+            seen = X.explore_consts(cl.cfg, cs, uinit=init, utransfer=ut, follow_exc=True)
             exits = [u for _e, u in X.states_at(seen, cl.cfg.exit)]
             ck.ob(R, cl, cl.node, bool(exits), "close() returns normally (%s)" % label, construct="returns: %s/%s" % (label, pinger))
             for closed, armed, removed, cancelled, cleared in exits:
@@ -470,6 +475,32 @@ def rule_ping_timeout(ck, consts):
         ck.ob(R, sp, node.ast, holds(facts[node.id], "self._ping_coroutine", False), "a new pinger is started only when none is running")
 
 
+def _part_impl(e, tags, env, rp):
+    if isinstance(e, ast.Constant) and e.value == b"":
+        return ()
+    if q.is_call(e, "struct.pack") and len(e.args) == 2 and isinstance(e.args[0], ast.Constant):
+        if e.args[0].value in (">H", "!H"):
+            return (("code", X.fold_in(e.args[1], env, "?")),)
+        return (("code packed as %r" % (e.args[0].value,), X.fold_in(e.args[1], env, "?")),)
+    if isinstance(e, ast.Call) and q.call_attr(e) in ("utf8", "encode"):
+        src = e.args[0] if (e.args and q.call_attr(e) == "utf8") else getattr(e.func, "value", None)
+        if src is not None and (q.dotted(src) == rp or (env.get(rp) is not None and X.fold_in(src, env, None) == env.get(rp))):
+            return (("reason",),)
+    if isinstance(e, ast.BinOp) and isinstance(e.op, ast.Add):
+        a, b = _part_impl(e.left, tags, env, rp), _part_impl(e.right, tags, env, rp)
+        return None if a is None or b is None else a + b
+    if isinstance(e, ast.IfExp):
+        t = X.fold_in(e.test, env, "?")
+        if t == "?":
+            return None
+        return _part_impl(e.body if t else e.orelse, tags, env, rp)
+    d = q.dotted(e) if isinstance(e, (ast.Name, ast.Attribute)) else None
+    if d is not None and d in tags:
+        return tags[d]
+    return None
+
+
+
 def rule_close_payload(ck, consts):
     """close(code, reason): payload = 2-byte big-endian code [+ utf8 reason]; a reason without a code gets 1000."""
     R = "C16.close-payload"
@@ -482,32 +513,12 @@ def rule_close_payload(ck, consts):
 
     def ut(n, u, env):
         tags = dict(u)
+
+        def part(e):
+            return _part_impl(e, tags, env, rp)
+
         if n.kind == "stmt" and isinstance(n.ast, (ast.Assign, ast.AugAssign)) and n.ast.value is not None:
             v = n.ast.value
-
-            def part(e):
-                if isinstance(e, ast.Constant) and e.value == b"":
-                    return ()
-                if q.is_call(e, "struct.pack") and len(e.args) == 2 and isinstance(e.args[0], ast.Constant):
-                    if e.args[0].value in (">H", "!H"):
-                        return (("code", X.fold_in(e.args[1], env, "?")),)
-                    return (("code packed as %r" % (e.args[0].value,), X.fold_in(e.args[1], env, "?")),)
-                if isinstance(e, ast.Call) and q.call_attr(e) in ("utf8", "encode"):
-                    src = e.args[0] if (e.args and q.call_attr(e) == "utf8") else getattr(e.func, "value", None)
-                    if src is not None and (q.dotted(src) == rp or (env.get(rp) is not None and X.fold_in(src, env, None) == env.get(rp))):
-                        return (("reason",),)
-                if isinstance(e, ast.BinOp) and isinstance(e.op, ast.Add):
-                    a, b = part(e.left), part(e.right)
-                    return None if a is None or b is None else a + b
-                if isinstance(e, ast.IfExp):
-                    t = X.fold_in(e.test, env, "?")
-                    if t == "?":
-                        return None
-                    return part(e.body if t else e.orelse)
-                d = q.dotted(e) if isinstance(e, (ast.Name, ast.Attribute)) else None
-                if d is not None and d in tags:
-                    return tags[d]
-                return None
 
             tg = [q.dotted(t) for t in (n.ast.targets if isinstance(n.ast, ast.Assign) else [n.ast.target])]
             pv = part(v)
@@ -529,7 +540,7 @@ def rule_close_payload(ck, consts):
             got = set()
             for node, c in writes:
                 for env, u in X.states_at(seen, node):
-                    payload = dict(u).get(q.dotted(c.args[2]) or "?") if len(c.args) > 2 else None
+                    payload = _part_impl(c.args[2], dict(u), env, rp) if len(c.args) > 2 else None
                     got.add((X.fold_in(c.args[0], env, "?"), X.fold_in(c.args[1], env, "?"), payload))
             if any(g[2] is None for g in got):
                 raise AnalysisError("close(): the composition of the close frame payload is not modelled (expected b'' / struct.pack('>H', code) [+ utf8(reason)])")
@@ -732,6 +743,7 @@ MUTANTS = [
     ("is_closing() ignores that we already sent our close frame", _in(P13 + ".is_closing", replace_expr(lambda n: isinstance(n, ast.BoolOp), lambda n: ast.BoolOp(op=n.op, values=n.values[:2]))), "C16.no-data-after-close"),
     ("ping timeout 0 (disabled) closes the connection", _in(P13 + ".periodic_ping", replace_expr(lambda n: isinstance(n, ast.Compare) and _src(n) == "timeout > 0", lambda n: parse_expr("timeout >= 0"))), "C16.ping-timeout"),
     ("seeded C16-adv2: already-done write future returned without the error translation", _in(P13 + ".write_message", lambda root: bool([root.body.insert(i + 1, parse_stmt("if fut.done():\n    return fut")) for i, st in enumerate(list(root.body)) if isinstance(st, ast.Try) and "_write_frame" in _src(st)])), "C16.closed-error"),
+    ("seeded C16-adv4: the client delivers the close notification before storing code and reason", _in("WebSocketClientConnection.on_ws_connection_close", lambda root: bool(root.body.insert(len([x for x in root.body if isinstance(x, ast.Expr) and isinstance(x.value, ast.Constant)]), root.body.pop()) or True)), "C16.notify-once"),
     ("undo the G5-2 repair: the receive loop handles only StreamClosedError", _in(P13 + "._receive_frame_loop", _drop_handler("Exception")), "C16.notify-once"),
     ("broad loop handler returns before the close notification", _in(P13 + "._receive_frame_loop", lambda root: bool([h.body.append(parse_stmt("return")) for n in ast.walk(root) if isinstance(n, ast.Try) for h in n.handlers if h.type is not None and _src(h.type) == "Exception"])), "C16.notify-once"),
     ("close code parsed only when a reason follows (>= 2 -> > 2)", _in(P13 + "._handle_message", replace_expr(lambda n: isinstance(n, ast.Compare) and _src(n) == "len(data) >= 2", lambda n: parse_expr("len(data) > 2"))), "C16.echo"),
